@@ -29,6 +29,12 @@ BASES = [
     [("states", "M", ["V=-80.0"]), ("states", "G", ["m=0.1", "h=0.9"]), ("parameters", "M", ["g=0.3", "e=-60.0"]),
      ("expr", "G", ["minf = 1/(1 + exp(-(V + 40)/8))", "dm_dt = (minf - m)*2", "dh_dt = 0.25*(1 - h) - h*exp(V/20)"]),
      ("expr", "M", ["ileak = g*(V - e)", "dV_dt = -(ileak + m*m*m*h*(V - 50))"])],
+    # independent equations in several components whose names interleave alphabetically (ties in the topological order)
+    [("states", "fast", ["u=1.0", "b=2.0"]), ("states", "slow", ["w=0.5", "a=0.3"]), ("parameters", "fast", ["k1=2.0"]),
+     ("parameters", "slow", ["k2=0.5"]), ("expr", "slow", ["dw_dt = -w*k2", "da_dt = -a + w"]),
+     ("expr", "fast", ["du_dt = -u*k1", "db_dt = -b + u"])],
+    [("states", "zeta", ["p=1.0"]), ("states", "alpha", ["q=2.0"]), ("states", "mid", ["r=3.0"]),
+     ("expr", "zeta", ["ip = p*2", "dp_dt = -ip"]), ("expr", "alpha", ["iq = q*3", "dq_dt = -iq"]), ("expr", "mid", ["ir = r*4", "dr_dt = -ir + ip*iq"])],
     # mixed style: header-less (default component) lines next to a headed block
     [("parameters", None, ["sigma=12.0"]), ("parameters", "slow", ["rho=21.0", "beta=2.4"]), ("states", None, ["x=1.0"]),
      ("states", "slow", ["y=2.0", "z=3.05"]), ("expr", None, ["s = sigma*y", "dx_dt = s - sigma*x"]),
